@@ -365,6 +365,303 @@ static void case_join(int id, vctl::Rng& rng, std::vector<int> const* replay, in
     if (!ok) _exit(7);
 }
 
+// ---------------------------------------------------------------------- lifetime of the shared state
+// LIFE cases (Model/HandoffLife.v): the shared state of split / ensure_started / split_tuple is allocated
+// through the adaptor's allocator argument on pages of its own; `deallocate` makes the pages inaccessible
+// (nothing is reused), so every later access to a member of the freed shared state faults.  The handler
+// records (thread, site the thread was released from), opens the pages again (the bytes of the destroyed
+// object are still there, the run continues as it would on a not yet reused heap block) and the controller
+// closes them before the next step.  The consumers' operation states hold the references: consumer i
+// destroys its operation state inside the signal (oracle bit i set: what start_detached's receiver does)
+// or in a later, separately scheduled step of its own thread (parked at pseudo-site 0 after start()).
+//   IN  HL <id> <kind SP|ES|ST> <chan V|E|S> <consumers> <oracle bits, consumer 1 first> <schedule>
+//   OUT HL <id> sites=<..> sig=<..> freed=<thread that released the last reference | -> bad=<thread.site,..|->
+namespace life {
+    static char* g_base = nullptr;
+    static std::size_t g_len = 0;
+    static volatile int g_freed = 0, g_freed_by = -1, g_nalloc = 0;
+    static volatile int g_nbad = 0;
+    static volatile int g_bad_t[64], g_bad_site[64];
+    static vctl::Controller* g_ctl = nullptr;
+    static int g_basesite = 0;
+
+    template <class T>
+    struct palloc
+    {
+        using value_type = T;
+        palloc() = default;
+        template <class U>
+        palloc(palloc<U> const&) noexcept {}
+        T* allocate(std::size_t n)
+        {
+            std::size_t len = ((n * sizeof(T) + 4095) / 4096) * 4096;
+            void* p = mmap(nullptr, len, PROT_READ | PROT_WRITE, MAP_PRIVATE | MAP_ANONYMOUS, -1, 0);
+            if (p == MAP_FAILED) std::abort();
+            g_base = (char*) p;
+            g_len = len;
+            g_nalloc = g_nalloc + 1;
+            return (T*) p;
+        }
+        void deallocate(T* p, std::size_t) noexcept
+        {
+            if ((char*) p != g_base) std::abort();
+            g_freed_by = vctl::t_id;
+            g_freed = 1;
+            mprotect(g_base, g_len, PROT_NONE);
+        }
+        template <class U>
+        bool operator==(palloc<U> const&) const noexcept { return true; }
+        template <class U>
+        bool operator!=(palloc<U> const&) const noexcept { return false; }
+    };
+    static void on_segv(int, siginfo_t* si, void*)
+    {
+        char* a = (char*) si->si_addr;
+        if (g_freed && g_base && a >= g_base && a < g_base + g_len)
+        {
+            int t = vctl::t_id;
+            int site = (t >= 0 && g_ctl) ? g_ctl->s[t].site : -1;
+            int k = g_nbad;
+            if (k < 64 && !(k > 0 && g_bad_t[k - 1] == t && g_bad_site[k - 1] == site))
+            {
+                g_bad_t[k] = t;
+                g_bad_site[k] = site;
+                g_nbad = k + 1;
+            }
+            mprotect(g_base, g_len, PROT_READ | PROT_WRITE);
+            return;    // the faulting access is executed again and succeeds
+        }
+        signal(SIGSEGV, SIG_DFL);    // a genuine crash: fault again with the default action
+    }
+    static void install()
+    {
+        struct sigaction sa;
+        std::memset(&sa, 0, sizeof sa);
+        sa.sa_sigaction = on_segv;
+        sa.sa_flags = SA_SIGINFO | SA_NODEFER;
+        sigaction(SIGSEGV, &sa, nullptr);
+    }
+    static void reset(vctl::Controller* c, int base)
+    {
+        if (g_base) munmap(g_base, g_len);
+        g_base = nullptr;
+        g_len = 0;
+        g_freed = 0;
+        g_freed_by = -1;
+        g_nalloc = 0;
+        g_nbad = 0;
+        g_ctl = c;
+        g_basesite = base;
+    }
+
+    // receiver that records the signal and then (oracle) destroys its own operation state
+    struct krcv
+    {
+        LObs* o;
+        std::function<void()>* kill;
+        void done(std::string s)
+        {
+            LObs* oo = o;
+            std::function<void()>* k = kill;    // *this dies with the operation state
+            oo->rec(std::move(s));
+            if (k && *k) (*k)();
+        }
+        template <class... Ts>
+        void set_value(Ts&&... ts) && noexcept
+        {
+            std::ostringstream s;
+            s << "V:";
+            bool first = true;
+            (flat(s, first, ts), ...);
+            done(s.str());
+        }
+        void set_error(std::exception_ptr ep) && noexcept { done("E:" + std::to_string(exn_id(ep))); }
+        template <class E>
+        void set_error(E&&) && noexcept { done("E:?"); }
+        void set_stopped() && noexcept { done("S"); }
+        constexpr ex::empty_env get_env() const noexcept { return {}; }
+    };
+
+    static bool drive_life(vctl::Controller& ctl, vctl::Rng& rng, int base, Sched& s, Manual& m, std::vector<LObs>& obs,
+        std::vector<int> const* replay)
+    {
+        size_t ri = 0;
+        for (int guard = 0; guard < 10000; ++guard)
+        {
+            if (!ctl.quiesce(8000)) return false;
+            if (g_freed) mprotect(g_base, g_len, PROT_NONE);    // closed again before every step
+            auto p = ctl.parked();
+            if (p.empty()) return true;
+            std::vector<int> c;
+            for (int t : p)
+            {
+                int site = ctl.site_of(t);
+                if (t == 0 && site == 0 && !m.started.load()) continue;
+                // a consumer waiting to destroy its operation state: only after it was signalled
+                if (t > 0 && site == base && obs[t - 1].n.load() == 0) continue;
+                c.push_back(t);
+            }
+            if (c.empty()) return false;
+            int t;
+            if (replay)
+            {
+                if (ri >= replay->size()) return false;
+                t = (*replay)[ri++];
+                bool ok = false;
+                for (int x : c) ok = ok || x == t;
+                if (!ok) return false;
+            }
+            else
+            {
+                t = c[rng.below(c.size())];
+                if (!s.sched.empty() && rng.chance(1, 3))
+                    for (int x : c)
+                        if (x == s.sched.back()) t = x;
+            }
+            s.sched.push_back(t);
+            int st = ctl.site_of(t);
+            s.sites.push_back(st == 0 ? 0 : st - base);
+            ctl.release(t);
+        }
+        return false;
+    }
+
+    static void case_life(int id, vctl::Rng& rng, std::vector<int> const* replay, int kind_, char chan_, int N_, unsigned oracle_)
+    {
+        g_led.reset();
+        g_seq = 0;
+        int kind = replay ? kind_ : (int) rng.below(3);    // 0 SP, 1 ES, 2 ST
+        char chan = replay ? chan_ : "VVES"[rng.below(4)];
+        int N = replay ? N_ : (kind == 0 ? 1 + (int) rng.below(3) : kind == 1 ? 1 : 2 + (int) rng.below(2));
+        unsigned mode = (unsigned) rng.below(4);
+        unsigned oracle = replay ? oracle_ : mode == 0 ? 0u : mode == 1 ? ~0u : (unsigned) rng.next();
+        oracle &= (1u << N) - 1;
+        char const* kname = kind == 0 ? "SP" : kind == 1 ? "ES" : "ST";
+        int base = kind == 0 ? 300 : kind == 1 ? 310 : 320;
+        Manual m;
+        std::vector<LObs> obs(N);
+        std::vector<std::function<void()>> kills(N);    // destroy consumer i's operation state (once)
+        Sched s;
+        bool ok = true;
+        auto report = [&] {
+            std::ostringstream in, out;
+            in << "IN HL " << id << " " << kname << " " << chan << " " << N << " ";
+            for (int i = 0; i < N; ++i) in << ((oracle >> i) & 1u);
+            in << " " << csv(s.sched);
+            out << "OUT HL " << id << " sites=" << csv(s.sites) << " sig=";
+            for (int i = 0; i < N; ++i)
+                out << (i ? "|" : "") << obs[i].n.load() << ":" << (obs[i].n.load() ? obs[i].res : "-") << ":" << obs[i].by;
+            out << " freed=";
+            if (g_freed) out << g_freed_by; else out << "-";
+            out << " bad=";
+            for (int i = 0; i < g_nbad; ++i) out << (i ? "," : "") << g_bad_t[i] << "." << (g_bad_site[i] <= 0 ? 0 : g_bad_site[i] - base);
+            if (g_nbad == 0) out << "-";
+            out << " allocs=" << g_nalloc << (ok ? "" : " STUCK");
+            std::printf("%s\n%s\n", in.str().c_str(), out.str().c_str());
+            std::fflush(stdout);
+        };
+        {
+            vctl::Controller ctl(N + 1, base + 1, base + 5);
+            reset(&ctl, base);
+            auto pred = [&] {
+                ctl.begin(0);
+                m.fire();
+                ctl.end();
+            };
+            auto inside = [&](int i) { return ((oracle >> i) & 1u) != 0; };
+            // consumer thread i+1: start(); unless the receiver destroys the operation state inside the signal,
+            // the owner does it in a later step, once the consumer was signalled
+            auto consumer = [&](int i, auto& osp) {
+                ctl.begin(i + 1);
+                ex::start(*osp);
+                if (!inside(i))
+                {
+                    for (;;)
+                    {
+                        ctl.park(base, nullptr, 0, 0);
+                        if (obs[i].n.load() > 0) break;
+                    }
+                    kills[i]();
+                }
+                ctl.end();
+            };
+            std::vector<std::thread> th;
+            auto go = [&] {
+                ok = drive_life(ctl, rng, base, s, m, obs, replay);
+                if (!ok)
+                {
+                    report();
+                    _exit(7);    // threads are still parked: leave without unwinding
+                }
+                for (auto& x : th) x.join();
+            };
+            if (kind == 0)
+            {
+                auto sp = std::optional(ex::split(mk(&m, chan, {1, 2}, 105), palloc<int>{}));
+                using OS = decltype(ex::connect(*sp, krcv{nullptr, nullptr}));
+                std::vector<std::unique_ptr<OS>> os;
+                for (int i = 0; i < N; ++i)
+                {
+                    os.emplace_back(new OS(pika::detail::with_result_of([&] { return ex::connect(*sp, krcv{&obs[i], inside(i) ? &kills[i] : nullptr}); })));
+                    kills[i] = [&os, i] { os[i].reset(); };
+                }
+                sp.reset();    // only the operation states (and the predecessor's receiver) hold references now
+                th.emplace_back(pred);
+                for (int i = 0; i < N; ++i) th.emplace_back([&, i] { consumer(i, os[i]); });
+                go();
+            }
+            else if (kind == 1)
+            {
+                auto es = std::optional(ex::ensure_started(mk(&m, chan, {1, 2}, 105), palloc<int>{}));
+                using OS = decltype(ex::connect(std::move(*es), krcv{nullptr, nullptr}));
+                std::unique_ptr<OS> os(new OS(pika::detail::with_result_of([&] { return ex::connect(std::move(*es), krcv{&obs[0], inside(0) ? &kills[0] : nullptr}); })));
+                kills[0] = [&os] { os.reset(); };
+                es.reset();
+                th.emplace_back(pred);
+                th.emplace_back([&] { consumer(0, os); });
+                go();
+            }
+            else
+            {
+                auto run_tuple = [&](auto tupsender) {
+                    std::apply(
+                        [&](auto&&... snd) {
+                            int i = 0;
+                            auto mkos = [&](auto&& sn) {
+                                int j = i++;
+                                using OS = decltype(ex::connect(std::move(sn), krcv{nullptr, nullptr}));
+                                return std::unique_ptr<OS>(new OS(pika::detail::with_result_of(
+                                    [&] { return ex::connect(std::move(sn), krcv{&obs[j], inside(j) ? &kills[j] : nullptr}); })));
+                            };
+                            std::tuple oss{mkos(std::move(snd))...};
+                            int k = 0;
+                            std::apply([&](auto&... o) { ((kills[k++] = [&o] { o.reset(); }), ...); }, oss);
+                            th.emplace_back(pred);
+                            int kk = 0;
+                            std::apply([&](auto&... o) { ((th.emplace_back([&, q = kk++] { consumer(q, o); })), ...); }, oss);
+                            go();
+                        },
+                        std::move(tupsender));
+                };
+                if (N == 2)
+                    run_tuple(ex::split_tuple(mk(&m, chan, {1, 2}, 105) | ex::then([](V v) {
+                        return std::tuple<V, V>(V(v.begin(), v.begin() + 1), V(v.begin() + 1, v.end()));
+                    }), palloc<int>{}));
+                else
+                    run_tuple(ex::split_tuple(mk(&m, chan, {1, 2}, 105) | ex::then([](V v) {
+                        return std::tuple<V, V, V>(V(v.begin(), v.begin() + 1), V(v.begin() + 1, v.end()), V{});
+                    }), palloc<int>{}));
+            }
+            g_ctl = nullptr;
+        }
+        {
+            std::lock_guard l(g_ep_m);
+            g_leaf_eps.clear();
+        }
+        report();
+    }
+}    // namespace life
+
 // ---------------------------------------------------------------------- real-concurrency stress
 // "Nothing is signalled twice" includes the shared predecessor being STARTED twice when several
 // consumers of one split() sender call start() truly concurrently: the start flag's test-and-set has no
@@ -751,6 +1048,13 @@ int main(int argc, char** argv)
     if (argc > 2 && std::string(argv[1]) == "stress")
         return st::main_stress(std::strtoull(argv[2], nullptr, 10), argc > 3 ? std::strtoull(argv[3], nullptr, 10) : 100000,
             argc > 4 ? std::atol(argv[4]) : 15000);
+    bool lifemode = argc > 1 && std::string(argv[1]) == "life";    // c03_lock life <seed> <ncases>
+    if (lifemode)
+    {
+        --argc;
+        ++argv;
+        life::install();
+    }
     std::uint64_t seed = argc > 1 ? std::strtoull(argv[1], nullptr, 10) : 1;
     int ncases = argc > 2 ? std::atoi(argv[2]) : 100;
     // replay: c03_lock replay HO <kind> <chan> <N> <sched>  |  replay JN <kind> <n> <comps> <sched>
@@ -759,7 +1063,20 @@ int main(int argc, char** argv)
         vctl::Rng rng(1);
         std::vector<int> sch;
         std::string which = argv[2], k = argv[3];
-        if (which == "HO")
+        if (which == "HL")
+        {
+            // replay HL <kind> <chan> <N> <oracle bits> <sched>
+            std::istringstream is(argv[7]);
+            std::string tok;
+            while (std::getline(is, tok, ','))
+                if (tok != "-") sch.push_back(std::atoi(tok.c_str()));
+            unsigned oracle = 0;
+            for (int i = 0; argv[6][i]; ++i)
+                if (argv[6][i] == '1') oracle |= 1u << i;
+            life::install();
+            life::case_life(0, rng, &sch, k == "SP" ? 0 : k == "ES" ? 1 : 2, argv[4][0], std::atoi(argv[5]), oracle);
+        }
+        else if (which == "HO")
         {
             std::istringstream is(argv[6]);
             std::string tok;
@@ -793,7 +1110,9 @@ int main(int argc, char** argv)
                 *cur = cs;
                 alarm(12);
                 vctl::Rng rng(seed * 1000003ull + (std::uint64_t) cs);    // per-case stream: a restart does not shift later cases
-                if (cs % 2 == 0)
+                if (lifemode)
+                    life::case_life(cs, rng, nullptr, 0, 'V', 0, 0);
+                else if (cs % 2 == 0)
                     case_handoff(cs, rng, nullptr, 0, 'V', 0);
                 else
                     case_join(cs, rng, nullptr, 0, "");
@@ -811,7 +1130,7 @@ int main(int argc, char** argv)
         else if (WIFSIGNALED(st) && WTERMSIG(st) == SIGSEGV) what = "segv";
         else if (WIFEXITED(st) && WEXITSTATUS(st) == 7) what = "stuck";
         else if (WIFEXITED(st)) what = "exit";
-        std::printf("DIED %s %d %s\n", i % 2 == 0 ? "HO" : "JN", i, what);
+        std::printf("DIED %s %d %s\n", lifemode ? "HL" : i % 2 == 0 ? "HO" : "JN", i, what);
         std::fflush(stdout);
         next = i + 1;
         if (++deaths >= 12)
